@@ -856,8 +856,37 @@ class _BetaArgs(ast.NodeTransformer):
             return ast.IfExp(test=copy.deepcopy(tests[len(prefix)]), body=a, orelse=b)
         return ast.copy_location(self.visit(pick([])), n)
 
+    def visit_BinOp(self, n):
+        n = self.generic_visit(n)
+        if isinstance(n.op, ast.Add) and isinstance(n.left, ast.Constant) and isinstance(n.right, ast.Constant) and \
+                isinstance(n.left.value, str) and isinstance(n.right.value, str):
+            return ast.copy_location(ast.Constant(value=n.left.value + n.right.value), n)
+        return n
+
+    def visit_JoinedStr(self, n):
+        n = self.generic_visit(n)
+        # f'pop_{"x"}' with nothing but constants inside
+        parts = []
+        for v in n.values:
+            if isinstance(v, ast.Constant) and isinstance(v.value, str):
+                parts.append(v.value)
+            elif isinstance(v, ast.FormattedValue) and v.conversion == -1 and v.format_spec is None and \
+                    isinstance(v.value, ast.Constant) and isinstance(v.value.value, str):
+                parts.append(v.value.value)
+            else:
+                return n
+        return ast.copy_location(ast.Constant(value=''.join(parts)), n)
+
     def _merge_comp(self, n):
         n = self.generic_visit(n)
+        # [E(x) for x in ('a', 'b', 'c')]  is  [E('a'), E('b'), E('c')]   (same order of evaluation)
+        if isinstance(n, ast.ListComp) and len(n.generators) == 1 and not n.generators[0].ifs and \
+                isinstance(n.generators[0].iter, (ast.Tuple, ast.List)) and 0 < len(n.generators[0].iter.elts) <= 12 and \
+                isinstance(n.generators[0].target, ast.Name) and \
+                all(isinstance(e, ast.Constant) for e in n.generators[0].iter.elts):
+            tv = n.generators[0].target.id
+            elts = [self.visit(_Rename({}, {tv: e}).visit(copy.deepcopy(n.elt))) for e in n.generators[0].iter.elts]
+            return ast.copy_location(ast.List(elts=elts, ctx=ast.Load()), n)
         # [E for x in (y for y in IT if C)]  is  [E for x in IT if C[y := x]]
         g0 = n.generators[0]
         inner = g0.iter
@@ -1730,6 +1759,31 @@ def tidy_blocks(fn: ast.FunctionDef) -> bool:
                     out[-1].orelse = block(out[-1].orelse)
                     changed[0] = True
                     return out
+            # ROWS = [(c1, <call>), (c2, <call>)] only ever looped over: the calls get a name each (in order), so the
+            # rows are plain values and the loops over them can be written out
+            if isinstance(st, ast.Assign) and len(st.targets) == 1 and isinstance(st.targets[0], ast.Name) and \
+                    isinstance(st.value, (ast.List, ast.Tuple)) and st.value.elts and \
+                    all(isinstance(r_, (ast.Tuple, ast.List)) for r_ in st.value.elts) and \
+                    any(not _pure_simple(e) for r_ in st.value.elts for e in r_.elts) and \
+                    not getattr(st, '_hoisted', False):
+                tn = st.targets[0].id
+                uses = [x for x in ast.walk(fn) if isinstance(x, ast.Name) and x.id == tn and isinstance(x.ctx, ast.Load)]
+                loops = [x for x in ast.walk(fn) if isinstance(x, ast.For) and isinstance(x.iter, ast.Name) and x.iter.id == tn]
+                stores_ = sum(1 for x in ast.walk(fn) if isinstance(x, ast.Name) and x.id == tn and isinstance(x.ctx, ast.Store))
+                if uses and len(uses) == len(loops) and stores_ == 1:
+                    k_ = 0
+                    for r_ in st.value.elts:
+                        for j_, e in enumerate(r_.elts):
+                            if not _pure_simple(e):
+                                k_ += 1
+                                nm = f'{tn}_{k_}'
+                                out.append(ast.copy_location(ast.Assign(targets=[ast.Name(id=nm, ctx=ast.Store())], value=e), st))
+                                r_.elts[j_] = ast.Name(id=nm, ctx=ast.Load())
+                    st._hoisted = True
+                    changed[0] = True
+                    out.append(st)
+                    i += 1
+                    continue
             # a loop over an empty literal does nothing
             if isinstance(st, ast.For) and isinstance(st.iter, (ast.Tuple, ast.List)) and not st.iter.elts and not st.orelse:
                 changed[0] = True
